@@ -149,6 +149,9 @@ func featuresOf(id string, c runCase, v runVerdict) []string {
 	case "C04":
 		fs = append(fs, c04Features(c, v)...)
 	case "C10", "C11":
+		if strings.Contains(v.Msg, "[nested member kept stale]") {
+			fs = append(fs, "update-nested-stale")
+		}
 		if m := reZeroKept.FindStringSubmatch(v.Msg); m != nil {
 			srcType := m[3]
 			nillableKind := strings.HasPrefix(srcType, "*") || strings.HasPrefix(srcType, "[]") || strings.HasPrefix(srcType, "map[")
